@@ -239,9 +239,10 @@ def _b(c):
     return c if isinstance(c, bool) else bool(c)
 
 
-def case_c55_em_flag(log, orders=(1, 2, 3, 4)):
+def case_c55_em_flag(log, orders=(2, 3, 4)):
     """C55 site C': the real Couplings.a at QED order 0 with the alpha_em-running flag a symbolic Boolean in two executions: the fixed-flavour legs
-    requested from `compute` and the returned couplings must be identical (in particular no split at the tau mass decided by the flag)."""
+    requested from `compute` and the returned couplings must be identical (in particular no split at the tau mass decided by the flag).
+    Orders >= 2: at LO the closed form is exactly transitive, so a flag-dependent split would not change the result (Couplings.compute at LO: site C)."""
     from symx.solver import explore, prove_zero, ZBool
     import z3
 
